@@ -294,8 +294,11 @@ Definition xi_resource_errors_doc (fuel : nat) (uri : path) (top : list node) : 
     exactly the shape of a document *)
 Fixpoint count_elems (l : list snode) : nat :=
   match l with [] => O | SElem _ _ _ _ _ :: r => S (count_elems r) | _ :: r => count_elems r end.
+(** white space (XML 1.0 production S) between the children of a document is not part of the infoset: character
+    data at the top level counts only if it is not white space *)
+Definition is_ws (s : str) : bool := forallb (fun c => (c =? 32) || (c =? 9) || (c =? 10) || (c =? 13)) s.
 Fixpoint has_text (l : list snode) : bool :=
-  match l with [] => false | SText _ :: _ => true | _ :: r => has_text r end.
+  match l with [] => false | SText s :: r => negb (is_ws s) || has_text r | _ :: r => has_text r end.
 
 Definition xi_spec_doc (fuel : nat) (uri : path) (top : list node) : sres :=
   match smap (xi_spec fuel [uri] uri) top with
